@@ -123,6 +123,14 @@ def r19_presets(rep, M, rid_nan, rid_tab):
             elif isinstance(sub, ast.If):
                 pass
     if not sel:
+        whole = [t for st in body for t in ast.walk(st) if isinstance(t, ast.If) and any(
+            nan_predicate(M, GET_RADII, c) is not None or (isinstance(c, ast.Call) and isinstance(c.func, ast.Attribute) and c.func.attr in ("any", "all"))
+            for c in ast.walk(t.test))]
+        if whole or names == {COV, VDW}:
+            rep.violation(rid_nan, "get_radii 'vdw_covalent' fallback", "the covalent fallback is not an elementwise selection (conditional expression / "
+                          "np.where per element): one missing van der Waals radius switches the table for *every* atom of the structure, so "
+                          "elements that do have a vdW radius get their covalent radius", M.where(GET_RADII, (whole or body)[0]))
+            return
         raise AnalysisError("get_radii 'vdw_covalent': selection construct (conditional expression / np.where) not found")
     for kind, cond, a, b, node in sel:
         pred = nan_predicate(M, GET_RADII, cond)
@@ -266,6 +274,24 @@ def run(rep, ctx):
         r19_4(rep, M, "R19.4")
     with rep.guard("R19.5"):
         c13.r13_2(rep, M, "R19.5")
+    rep.rule("R19.6", "SBC.get_clusters derives everything it uses from this call's radii (no state carried between calls)")
+    with rep.guard("R19.6"):
+        from . import c01
+        c01.call_local_state(rep, M, "R19.6", "matid.clustering.sbc.SBC.get_clusters")
+        # the distances handed to the region search and to the clusters are this call's get_distances(system_copy, radii)
+        GC = "matid.clustering.sbc.SBC.get_clusters"
+        fl = Flow(M.func(GC))
+        gd = M.calls_to(GC, GEO + ".get_distances")
+        for callee, par in (("matid.core.periodicfinder.PeriodicFinder.get_region", "distances"), ("matid.clustering.cluster.Cluster.__init__", "distances")):
+            for c in M.calls_to(GC, callee):
+                a = M.bind_args(callee, c).get(par)
+                ok = a is not None and gd and any(x is gd[0] for x in fl.calls_in_slice(a, fl.node_of(c))) and not any(
+                    isinstance(x, ast.Attribute) and isinstance(x.value, ast.Name) and x.value.id == "self" for e in fl.slice(a, fl.node_of(c))["exprs"] for x in ast.walk(e))
+                if ok:
+                    rep.ok("R19.6", f"get_clusters: `{par}` of {callee.split('.')[-2]} is this call's get_distances(...)")
+                else:
+                    rep.violation("R19.6", f"get_clusters: `{par}` of {callee.split('.')[-2]}", f"`{norm(a) if a is not None else None}` is not (only) the "
+                                  "result of get_distances computed in this call with this call's radii", M.where(GC, c))
     rep.floor("R19.1", 2)
     rep.floor("R19.2", 3)
     rep.floor("R19.4", 6)
